@@ -710,6 +710,23 @@ func c14Import(p *Program, r *Report) {
 								r.Check(okBind, "C14.R4", inst+" (range)", site, "table only iterated; every entry re-bound with Define* on an environment created in the import handler", "package table entries are not copied into a new environment")
 							case *ssa.DebugRef:
 								n--
+							case *ssa.Call:
+								// the table handed to a bulk-define method of a scope created here: accepted when that method only reads the
+								// table it is given (ranges over it, asks its length, looks keys up) - it copies the entries, it cannot keep the table
+								okBulk := false
+								if callee := staticCallee(x); callee != nil && callee.Pkg == envSp && len(x.Call.Args) >= 2 {
+									if em, e := buildEnvModel(p); e == nil && em.isFreshResult2(x.Call.Args[0]) {
+										for i, a := range x.Call.Args {
+											if a == t && i < len(callee.Params) {
+												if what, write, ok := em.helperUseOfParam(callee, i); ok && !write {
+													okBulk = true
+													_ = what
+												}
+											}
+										}
+									}
+								}
+								r.Check(okBulk, "C14.R4", inst, site, "table handed to a method of a scope created here that only reads it: the entries are copied", "the shared package table itself is used (not just iterated): importing environments would share one table")
 							default:
 								r.Fail("C14.R4", inst, site, "the shared package table itself is used (not just iterated): importing environments would share one table")
 							}
